@@ -50,4 +50,16 @@ Proof.
   cbn in Hwf. lia.
 Qed.
 
+(* the same with the Maximum Packet Size refusal: an over-size response becomes the end of the connection *)
+Theorem respond_sized_sound (c : ctx) (p : pkt) :
+  wf_request c p = true ->
+  KF_C07_pubrel_error c p = false ->
+  KF_C07_qos_downgrade c p = false ->
+  resp_ok p (model_response_sized c p) = true.
+Proof.
+  intros Hwf K1 K2. pose proof (respond_sound c p Hwf K1 K2) as H.
+  unfold model_response_sized. destruct (x_too_large c); [|exact H].
+  destruct (model_response c p); try reflexivity. exact H.
+Qed.
+
 (* non-vacuity and the two refutations are in Properties/C07.v *)
